@@ -567,7 +567,13 @@ def impl(case):
         if op == 3:
             return run_make_query(case)
         if op == 4:
-            return int(dns.serial.Serial(case[1]) < case[2])
+            a, b = dns.serial.Serial(case[1]), case[2]
+            return [int(a < b), int(a <= b), int(a > b), int(a >= b), int(a == b)]
+        if op == 7:
+            try:
+                return (dns.serial.Serial(case[1]) + case[2]).value
+            except ValueError as e:
+                return Err(32, "ValueError")
         if op == 5:
             return run_group(case)
         if op == 6:
@@ -1341,6 +1347,9 @@ def misc_cases(ctx, rng):
         if rng.random() < 0.1:
             b += T32
         yield "serial", [4, a, b]
+    for _ in range(ctx.n(100, 1000)):
+        yield "serial-add", [7, rng.choice(edge + [rng.randrange(T32)]),
+                             rng.choice([0, 1, -1, 2 ** 31 - 1, 2 ** 31, -(2 ** 31 - 1), -(2 ** 31), rng.randrange(-2 ** 31, 2 ** 31)])]
     for zs in [None, 1, 77, 2 ** 32 - 1, 5]:
         for ser in [None, 0, 1, 5, 2 ** 32 - 1, 2 ** 32, -1, 2 ** 33]:
             yield "make_query", [3, zs, ser]
@@ -1385,9 +1394,15 @@ def oracle(ctx, kind, case, out):
         return F
     if op == 4:
         a, b = case[1] % T32, case[2] % T32
-        want = int(a != b and 0 < (b - a) % T32 < 2 ** 31)
-        if out != want and (b - a) % T32 != 2 ** 31:
-            fail("Serial.__lt__ differs from RFC 1982")
+        lt = int(a != b and 0 < (b - a) % T32 < 2 ** 31)
+        gt = int(a != b and 0 < (a - b) % T32 < 2 ** 31)
+        if (b - a) % T32 != 2 ** 31 and out != [lt, int(lt or a == b), gt, int(gt or a == b), int(a == b)]:
+            fail("Serial comparison differs from RFC 1982")
+        return F
+    if op == 7:
+        a, d = case[1] % T32, case[2]
+        if abs(d) <= 2 ** 31 - 1 and out != (a + d) % T32:
+            fail("Serial addition differs from RFC 1982")
         return F
     if op == 3:
         if isinstance(out, list) and len(out) == 3 and not isinstance(out[2], Err) and out[1] != out[2]:
